@@ -112,6 +112,7 @@ def attribute_errors(stderr, nwit):
             cur.append(line)
     if cur:
         groups.append(cur)
+    last = None
     for g in groups:
         k = None
         for line in g:
@@ -132,9 +133,13 @@ def attribute_errors(stderr, nwit):
             if '/Fastor/' in line and ('error' in line or 'note' in line):
                 loc = line
                 break
-        if k is not None and k not in bad:
-            bad[k] = (first.strip()[:300], loc.strip()[:300])
-        elif k is None:
+        if k is None and last is not None:
+            k = last        # follow-up diagnostics of the same failed instantiation carry no backtrace of their own
+        if k is not None:
+            last = k
+            if k not in bad:
+                bad[k] = (first.strip()[:300], loc.strip()[:300])
+        else:
             bad.setdefault(-1, (first.strip()[:300], loc.strip()[:300]))
     return bad
 
@@ -323,6 +328,8 @@ def finding_matches(k, prop, res, viol):
             return False
     if 'region' in k and k['region'] != viol.get('region'):
         return False
+    if 'permuted' in k and bool(res.get('permuted')) != bool(k['permuted']):
+        return False
     return True
 
 
@@ -330,7 +337,7 @@ def finding_matches(k, prop, res, viol):
 LEVELS = {}
 
 
-def finish(prop, tier, seed, runner, level, rule, trusted, floors=None, extra_cov=None, assumptions=None, exhaustive=False, extra_viol=None, extra_obl=(0, 0)):
+def finish(prop, tier, seed, runner, level, rule, trusted, floors=None, extra_cov=None, assumptions=None, exhaustive=False, extra_viol=None, extra_obl=(0, 0), uniform_reject_ok=False):
     """aggregate results, print VIOLATION / KNOWN-FINDING lines, write evidence, return exit code"""
     res = runner.results
     if os.environ.get('VERIF_DUMP'):
@@ -342,6 +349,16 @@ def finish(prop, tier, seed, runner, level, rule, trusted, floors=None, extra_co
     for r in res:
         by_status[r['status']] = by_status.get(r['status'], 0) + 1
     violations, known_hits, undecided, unsupported = [], {}, [], []
+    rejected_everywhere = 0
+    if uniform_reject_ok:
+        # a program the library rejects under EVERY configuration is not offered at all: counted, not judged.
+        # A program rejected under some configurations only is a violation (acceptance must not depend on the configuration).
+        by_id = {}
+        for r in res:
+            by_id.setdefault(r.get('id'), []).append(r['status'])
+        allrej = set(i for i, st in by_id.items() if all(x == 'uncompilable' for x in st))
+        rejected_everywhere = len(allrej)
+        res = [dict(r, status='rejected-everywhere', obligations=0, discharged=0) if r.get('id') in allrej else r for r in res]
     groups_ok = set()
     for r in res:
         g = (r.get('params') or {}).get('or_group')
@@ -450,6 +467,7 @@ def finish(prop, tier, seed, runner, level, rule, trusted, floors=None, extra_co
         'configs': sorted(set(r.get('config') for r in res)),
         'undecided_instances': len(undecided), 'unsupported_instances': len(unsupported),
         'known_findings_hit': {k: len(v) for k, v in known_hits.items()},
+        'programs_rejected_under_every_configuration': rejected_everywhere,
         'fastor_function_templates_reached': sorted(touched),
         'x86_intrinsics_interpreted': sorted(x86),
         'how_discharged': {k: sum((r.get('how') or {}).get(k, 0) for r in res) for k in ('identical_or_canonical', 'polynomial', 'case_split', 'minmax', 'refuted', 'undecided')},
